@@ -814,7 +814,8 @@ class JALR(ITypeInstruction):
     ) -> tuple[bool | None, int | None]:
         assert alu_in_1 is not None
         assert alu_in_2 is not None
-        return None, ((alu_in_1 + alu_in_2) & (~1))
+        # the target is a 32 bit address: wrap the sum like behavior() does
+        return None, (int(fixedint.UInt32(alu_in_1 + alu_in_2)) & (~1))
 
 
 class ECALL(ITypeInstruction):
